@@ -165,6 +165,9 @@ def render_seq(tag, xs):
     ns = [x["n"] for x in xs]
     if tag == "wstream":
         return "stream([" + ", ".join(lit(n) for n in ns) + "])"
+    if tag == "wadv":
+        # the same elements seen through a wrapped stream whose cursor has been ADVANCED past two others
+        return "(stream([" + ", ".join(lit(n) for n in [77, 78] + ns) + "])[2:])"
     if tag in ("range", "lmap"):
         # an arithmetic progression (the content decides start and step)
         if not ns:
